@@ -6,7 +6,7 @@ from . import c05
 
 PROPERTY = 'C10'
 BUDGET = {'quick': {'seconds': 1200, 'xreplay_every': 100}, 'thorough': {'seconds': 6000, 'xreplay_every': 2000}}
-NONTRIVIAL = {'quick': ['window-full', 'held-back', 'released-by-ack', 'window-changed', 'resumed', 'idle-and-complete', 'mixed-qos-order']}
+NONTRIVIAL = {'quick': ['early-publish', 'window-full', 'held-back', 'released-by-ack', 'window-changed', 'resumed', 'idle-and-complete', 'mixed-qos-order']}
 
 KINDS = ('publish', 'PUBACK', 'PUBREC', 'PUBCOMP', 'setWindowSize', 'reconnect')
 
@@ -98,7 +98,8 @@ def h_window(eng, params):
     flow = Flow(eng, params['profile'], clean=not params.get('persistent', False))
     flow.window_when = {}
     flow.conn_at = {}
-    flow.open()
+    early = params.get('early', 0)
+    flow.open(connack=not early)
 
     def mark():
         for st in range(len(flow.w.steps)):
@@ -106,9 +107,18 @@ def h_window(eng, params):
                 flow.window_when[st] = flow.c.window
                 flow.conn_at[st] = flow.c
     mark()
+    npub = 0
+    if early:
+        # requests issued between connect() and CONNACK are accepted too, and must neither be dropped nor overtake
+        for j in range(early):
+            flow.publish()
+            npub += 1
+            mark()
+        flow.connack(0)
+        mark()
+        eng.count('early-publish')
     flow.set_window()
     mark()
-    npub = 0
     for i in range(params['k']):
         kinds = [k for k in KINDS if not (k == 'publish' and npub >= params['maxpub']) and not (k == 'reconnect' and not params.get('persistent'))]
         forced = params.get('first') if i == 0 else params.get('second') if i == 1 else None
@@ -153,13 +163,16 @@ def shards(tier):
                         continue
                     out.append(('window', {'profile': profile, 'persistent': persistent, 'k': 6 if T else 4, 'maxpub': 5 if T else 3,
                                            'first': first, 'second': second}))
+                    if second in ('publish', 'PUBACK', 'PUBREC', 'setWindowSize') or T:
+                        out.append(('window', {'profile': profile, 'persistent': persistent, 'k': 5 if T else 3, 'maxpub': 5 if T else 4,
+                                               'first': first, 'second': second, 'early': 2}))
     return out
 
 
 META = {
     'rule': 'connected client, setWindowSize(w symbolic), then k free steps from {publish(QoS symbolic 0..2), PUBACK/PUBREC/PUBCOMP with symbolic identifier, '
             'setWindowSize(w symbolic), persistent loss + rebuilt protocol (+ setWindowSize) + CONNACK}; monitors computed from the wire log after every step',
-    'bounds': {'quick': 'k=4 free steps with at most 3 publishes; window 1..16 symbolic at every change; publisher and pubsubs; clean and persistent sessions',
+    'bounds': {'quick': 'k=4 free steps with at most 3 publishes (k=3 after 2 publishes issued before CONNACK); window 1..16 symbolic at every change; publisher and pubsubs; clean and persistent sessions',
                'thorough': 'k=6 with at most 5 publishes'},
     'stubs': ['fake transport', 'twisted task.Clock (no time passes: retransmissions are the subject of C08)', 'jitter: fixed sequence'],
     'outside': ['histories longer than k steps', 'timer expiries interleaved with window changes (C08/C13)'],
